@@ -25,6 +25,7 @@ import Driver.DzCmd
 import Driver.CircuitBoxCmd
 import Driver.SpidersCmd
 import Driver.SpecialCmd
+import Driver.CatCmd
 
 def handlers : List (String → List String → Option String) :=
   [ DV.CoreCmd.handle
@@ -46,6 +47,7 @@ def handlers : List (String → List String → Option String) :=
   , DV.CircuitBoxCmd.handle
   , DV.SpidersCmd.handle
   , DV.SpecialCmd.handle
+  , DV.CatCmd.handle
   ]
 
 def handle (line : String) : String :=
